@@ -33,6 +33,14 @@ Correspondence streams (model = lean/Drv/C20.lean over Model.Schedule):
            exceptionSchedule / scheduleDefault / effectivePeriod, over several
            days incl. effective-period entry and exit; (time, presentValue,
            armed deadline, exception) per step
+  multi    5..10 LocalScheduleObjects (different configurations, irregular transition
+           times) in ONE application / one task manager under the virtual clock, plus
+           4..12 unrelated one-shot timers that are installed and cancelled on the way
+           and writes (weeklySchedule / exceptionSchedule / effectivePeriod /
+           scheduleDefault) to some schedules at random instants (each write cancels
+           and re-arms that schedule's timer); presentValue of EVERY schedule at every
+           transition instant of every schedule (and one second later), at every
+           write and on a 30-minute grid; many short runs (14..34 h)
 Implementation-side oracles (independent of the model):
   * `denotes`: the BACnet meaning of a date pattern written directly with
     datetime (weekday, last day of month by "tomorrow is another month")
@@ -41,6 +49,9 @@ Implementation-side oracles (independent of the model):
     ties; else latest weekly entry; else default) -- no slots, no early breaks
   * next-transition: strictly after the evaluated time, and no sampled instant
     before it evaluates to a different value
+  * multi-schedule runs: every schedule shows `ref_value` of ITS configuration at every
+    probe (`stale-multi`) and no schedule's timer is still pending after its time has
+    come (`timer-overdue`: the task manager slept past it)
   * timer runs: presentValue equals `ref_value` at every probe instant between
     two firings (every 5 min and around every entry time), the task is always
     re-armed strictly in the future and never later than the next midnight.
@@ -144,7 +155,7 @@ def mk_weekly(weekly):
     return ArrayOf(DailySchedule)([DailySchedule(daySchedule=mk_tvs(day)) for day in weekly])
 
 
-def mk_exc(exc, cals):
+def mk_exc(exc, cals, base=100):
     """cals: list collecting (instance, entries) of calendar objects to create"""
     from bacpypes.constructeddata import ArrayOf
     from bacpypes.basetypes import SpecialEvent, SpecialEventPeriod
@@ -157,7 +168,7 @@ def mk_exc(exc, cals):
             if p["l"] is None:
                 period = SpecialEventPeriod(calendarReference=('calendar', 4000))   # no such object
             else:
-                inst = 100 + len(cals)
+                inst = base + len(cals)
                 cals.append((inst, p["l"], len(out)))
                 period = SpecialEventPeriod(calendarReference=('calendar', inst))
         else:
@@ -169,23 +180,26 @@ def mk_exc(exc, cals):
 class Real_:
     """a built schedule inside the process-wide Application"""
 
-    def __init__(self, cfg, start=0.0):
+    def __init__(self, cfg, start=0.0, inst=1, reset=True):
         from bacpypes.primitivedata import Real
         from bacpypes.basetypes import DateRange
         from bacpypes.object import CalendarObject
         from bacpypes.local.schedule import LocalScheduleObject
         e = env()
         self.vt, self.app = e["vt"], e["app"]
-        self.vt.reset(start)
+        if reset:
+            self.vt.reset(start)
+        self.reset = reset
+        self.base = 100 * inst
         self.objs = []
         self.cals = []
-        kw = dict(objectIdentifier=('schedule', 1), objectName='sched', presentValue=Real(float(PV0)),
+        kw = dict(objectIdentifier=('schedule', inst), objectName='sched%d' % inst, presentValue=Real(float(PV0)),
                   effectivePeriod=DateRange(startDate=tuple(cfg["eff"][0]), endDate=tuple(cfg["eff"][1])),
                   scheduleDefault=Real(float(cfg["def"])))
         if cfg["weekly"] is not None:
             kw["weeklySchedule"] = mk_weekly(cfg["weekly"])
         if cfg["exc"] is not None:
-            kw["exceptionSchedule"] = mk_exc(cfg["exc"], self.cals)
+            kw["exceptionSchedule"] = mk_exc(cfg["exc"], self.cals, self.base)
         self.cal_of_exc = {}
         for inst, entries, idx in self.cals:
             self.cal_of_exc[idx] = self._add_cal(inst, entries)
@@ -204,7 +218,7 @@ class Real_:
     def write(self, cfg):
         """write weeklySchedule / exceptionSchedule (whichever differs is enough: both are written)"""
         n0 = len(self.cals)
-        exc = mk_exc(cfg["exc"], self.cals) if cfg["exc"] is not None else None
+        exc = mk_exc(cfg["exc"], self.cals, self.base) if cfg["exc"] is not None else None
         self.cal_of_exc = {}
         for inst, entries, idx in self.cals[n0:]:
             self.cal_of_exc[idx] = self._add_cal(inst, entries)
@@ -244,7 +258,23 @@ class Real_:
                 self.app.delete_object(o)
             except Exception:
                 pass
-        self.vt.reset(0.0)
+        if self.reset:
+            self.vt.reset(0.0)
+
+    def write_one(self, cur, new):
+        """one property per write (the first that differs in the order exc, def, eff, weekly);
+        writing one that did not change re-evaluates as well"""
+        from bacpypes.primitivedata import Real
+        from bacpypes.basetypes import DateRange
+        so = self.so
+        if new["exc"] != cur["exc"]:
+            so.exceptionSchedule = self.write(new)
+        elif new["def"] != cur["def"]:
+            so.scheduleDefault = Real(float(new["def"]))
+        elif new["eff"] != cur["eff"]:
+            so.effectivePeriod = DateRange(startDate=tuple(new["eff"][0]), endDate=tuple(new["eff"][1]))
+        else:
+            so.weeklySchedule = mk_weekly(new["weekly"]) if new["weekly"] is not None else None
 
     def eval(self, d, t):
         try:
@@ -1108,17 +1138,7 @@ def run_real(case):
                 new = changes.pop(0)[1]
                 e = None
                 try:
-                    # one property per write; writing one that did not change re-evaluates as well
-                    from bacpypes.primitivedata import Real
-                    from bacpypes.basetypes import DateRange
-                    if new["exc"] != cur["exc"]:
-                        so.exceptionSchedule = real.write(new)
-                    elif new["def"] != cur["def"]:
-                        so.scheduleDefault = Real(float(new["def"]))
-                    elif new["eff"] != cur["eff"]:
-                        so.effectivePeriod = DateRange(startDate=tuple(new["eff"][0]), endDate=tuple(new["eff"][1]))
-                    else:
-                        so.weeklySchedule = mk_weekly(new["weekly"]) if new["weekly"] is not None else None
+                    real.write_one(cur, new)
                 except Exception as ex:
                     e = exc_kind(ex)
                 cur = new
@@ -1240,10 +1260,16 @@ def gen_run(rng, quick):
     start_s = rng.choice([0, rng.randrange(86400), rng.randrange(86400), 86399])
     start = (day0 * 86400 + start_s) * 1000000 + rng.choice([0, 0, 500000, 290000])
     until = (day0 + ndays) * 86400 * 1000000 + rng.randrange(0, 86400) * 1000000
+    changes = gen_changes(rng, cfg, focus, ndays, start, until, dd) if rng.random() < 0.4 else []
+    return {"op": "run", "cfg": cfg, "start": start, "until": until, "pv0": PV0,
+            "fuel": 400, "changes": changes}
+
+
+def gen_changes(rng, cfg, focus, ndays, start, until, dd, n=None):
     changes = []
-    if rng.random() < 0.4:
+    if True:
         cur = cfg
-        for _ in range(rng.randrange(1, 3)):
+        for _ in range(n or rng.randrange(1, 3)):
             tc = rng.randrange(start // 1000000 + 1, until // 1000000) * 1000000 + 500000
             new = json.loads(json.dumps(cur))
             other = gen_cfg(rng, focus + datetime.timedelta(days=rng.randrange(0, ndays)), span=ndays)
@@ -1260,11 +1286,9 @@ def gen_run(rng, quick):
             changes.append([tc, new])
             cur = new
         changes.sort(key=lambda c: c[0])
-        # configurations must be chained in time order
-        if len(changes) == 2 and changes[0][0] == changes[1][0]:
-            changes.pop()
-    return {"op": "run", "cfg": cfg, "start": start, "until": until, "pv0": PV0,
-            "fuel": 400, "changes": changes}
+        # distinct instants; the configurations are chained in time order by fix_chain
+        changes = [c for i, c in enumerate(changes) if i == 0 or c[0] != changes[i - 1][0]]
+    return changes
 
 
 def fix_chain(case):
@@ -1325,6 +1349,218 @@ def run_runs(ctx, rng, n, label="run", cases=None, bad=False):
                     "steps": impl[0]["steps"][:6]})
 
 
+# ---------------------------------------------------------------- many schedules, one task manager
+
+def gen_multi(rng):
+    """5..10 schedules (different configurations, irregular transition times) in ONE application,
+    a few unrelated timers that are installed / cancelled on the way, writes to some schedules"""
+    day0 = rng.randrange(25567 + 365, 92000)
+    focus = D1900 + datetime.timedelta(days=day0)
+    start = (day0 * 86400 + rng.randrange(86400)) * 1000000
+    until = start + rng.randrange(14 * 3600, 34 * 3600) * 1000000
+    ndays = 3
+
+    def dd(k):
+        x = focus + datetime.timedelta(days=k)
+        return [x.year - 1900, x.month, x.day, 255]
+    scheds = []
+    for k in range(rng.randrange(5, 11)):
+        cfg = gen_cfg(rng, focus + datetime.timedelta(days=rng.randrange(0, 2)), span=2)
+        if cfg["weekly"] is None or rng.random() < 0.5:
+            # transitions at irregular times on every day, so that a late timer shows soon
+            cfg["weekly"] = [gen_tvs(rng, rng.randrange(2, 5), 100 + 10 * i) for i in range(7)]
+        if rng.random() < 0.7:
+            cfg["eff"] = [list(OPEN), list(OPEN)]
+        changes = gen_changes(rng, cfg, focus, ndays, start, until, dd, n=rng.choice([1, 1, 2, 3])) \
+            if rng.random() < 0.6 else []
+        c = fix_chain({"op": "pvat", "cfg": cfg, "start": start, "until": until, "pv0": PV0,
+                       "fuel": 2000, "changes": changes})
+        scheds.append(c)
+    timers = []
+    for _ in range(rng.randrange(4, 13)):
+        at = rng.choice([start, rng.randrange(start, until)])
+        when = at + rng.choice([rng.randrange(60, 6 * 3600), rng.randrange(3600, 40 * 3600), 10 * 86400]) * 1000000
+        cancel = rng.randrange(at + 1, when) if rng.random() < 0.6 else None
+        timers.append({"at": at, "when": when, "cancel": cancel})
+    return {"start": start, "until": until, "scheds": scheds, "timers": timers}
+
+
+def multi_probes(case):
+    """every transition instant of EVERY schedule (all versions of its configuration) on every
+    day of the run, the same a second later, every write (+1 s), and a 30-minute grid"""
+    start, until = case["start"], case["until"]
+    day_us = 86400 * 1000000
+    out = set()
+    offs = {0}
+    for sc in case["scheds"]:
+        for cfg in [sc["cfg"]] + [c[1] for c in sc["changes"]]:
+            for l in list(cfg["weekly"] or []) + [se["tv"] for se in (cfg["exc"] or [])]:
+                for t, _v in l:
+                    offs.add((((t[0] * 60 + t[1]) * 60 + t[2]) * 100 + t[3]) * 10000)
+        for tc, _c in sc["changes"]:
+            out.update((tc, tc + 1000000))
+    d = start // day_us
+    while d * day_us <= until:
+        for o in offs:
+            out.update((d * day_us + o, d * day_us + o + 1000000))
+        d += 1
+    x = (start // (1800 * 1000000) + 1) * 1800 * 1000000
+    while x <= until:
+        out.add(x); x += 1800 * 1000000
+    return sorted(p for p in out if start < p <= until)
+
+
+def run_multi_real(case):
+    """returns (pv[k][j] of schedule k at probe j, overdue = first (probe, k, deadline) at which a
+    schedule's timer was still pending although its time had come, faults)"""
+    from bacpypes.task import OneShotTask
+    e = env()
+    vt = e["vt"]
+    start = (case["start"] - OFFSET_US) / 1e6
+    vt.reset(start)
+    reals = [Real_(sc["cfg"], start, inst=k + 1, reset=False) for k, sc in enumerate(case["scheds"])]
+    faults = [k for k, r in enumerate(reals) if r.so.reliability != 'noFaultDetected']
+    probes = multi_probes(case)
+
+    class Other(OneShotTask):
+        def process_task(self):
+            pass
+    others = [Other() for _ in case["timers"]]
+    events = collections_defaultdict()
+    for j, p in enumerate(probes):
+        events[p].append(("probe", j))
+    for k, sc in enumerate(case["scheds"]):
+        cur = sc["cfg"]
+        for tc, new in sc["changes"]:
+            events[tc].append(("write", k, cur, new))
+            cur = new
+    for i, tm in enumerate(case["timers"]):
+        events[tm["at"]].append(("install", i))
+        if tm["cancel"] is not None:
+            events[tm["cancel"]].append(("cancel", i))
+    pv = [[None] * len(probes) for _ in reals]
+    overdue = None
+    ok = vt.run(until=start)
+    for x in sorted(events):
+        if not ok:
+            break
+        if x > case["until"]:
+            break
+        acts = sorted(events[x], key=lambda a: {"install": 0, "cancel": 1, "write": 2, "probe": 3}[a[0]])
+        if x > case["start"]:
+            ok = vt.run(until=(x - OFFSET_US) / 1e6, max_loops=50000)
+        for a in acts:
+            if a[0] == "install":
+                others[a[1]].install_task((case["timers"][a[1]]["when"] - OFFSET_US) / 1e6)
+            elif a[0] == "cancel":
+                if others[a[1]].isScheduled:
+                    others[a[1]].suspend_task()
+            elif a[0] == "write":
+                try:
+                    reals[a[1]].write_one(a[2], a[3])
+                except Exception as ex:
+                    vt.errors.append((type(ex).__name__, str(ex)))
+            else:
+                j = a[1]
+                for k, r in enumerate(reals):
+                    pv[k][j] = tok(r.so.presentValue)
+                if overdue is None:
+                    for (w, t) in vt.pending():
+                        for k, r in enumerate(reals):
+                            if t is r.so._task and w <= vt.now:
+                                overdue = overdue or [j, k, us_of(w)]
+    errors = list(vt.errors)
+    for r in reals:
+        r.close()
+    for o in others:
+        if o.isScheduled:
+            o.suspend_task()
+    vt.reset(0.0)
+    return pv, probes, overdue, faults, errors, ok
+
+
+def collections_defaultdict():
+    import collections
+    return collections.defaultdict(list)
+
+
+def cfg_at(sc, x):
+    cfg = sc["cfg"]
+    for tc, new in sc["changes"]:
+        if tc <= x:
+            cfg = new
+    return cfg
+
+
+def oracle_multi(ctx, case, pv, probes, overdue, faults, errors, ok):
+    where = {"stream": "multi", "case": case}
+    if faults:
+        ctx.fail("valid-config-flagged", where, "schedule %d: a valid configuration is flagged faulty" % (faults[0] + 1))
+        return
+    if not ok:
+        ctx.fail("spins", where, "the task loop did not come to rest")
+        return
+    if errors:
+        ctx.fail("task-raised", where, "raised during the run: %r" % (errors[0],))
+        return
+    cache = {}
+
+    def rule(k, sc, x, d):
+        ver = sum(1 for tc, _n in sc["changes"] if tc <= x)
+        key = (k, ver, d)
+        if key not in cache:
+            cache[key] = ref_day(sc["cfg"] if ver == 0 else sc["changes"][ver - 1][1], d)
+        return cache[key]
+    for j, x in enumerate(probes):
+        d, tm = split_us(x)
+        for k, sc in enumerate(case["scheds"]):
+            if pv[k][j] is None:
+                continue
+            want = rule(k, sc, x, d)(tm)
+            if want is None or want == "out":
+                continue
+            if pv[k][j] != want:
+                ctx.fail("stale-multi", where,
+                         "at %s %r schedule %d of %d shows %r, its configuration prescribes %r" % (
+                             d.isoformat(), tm, k + 1, len(case["scheds"]), pv[k][j], want),
+                         schedule=k + 1, probe=x)
+                return
+    if overdue is not None:
+        j, k, w = overdue
+        ctx.fail("timer-overdue", where,
+                 "at %s the timer of schedule %d, due at %s, is still pending: the task manager slept past it" % (
+                     split_us(probes[j]), k + 1, split_us(w)), schedule=k + 1, probe=probes[j])
+
+
+def run_multi(ctx, rng, n, label="multi", cases=None, model_for=30):
+    cases = cases if cases is not None else [gen_multi(rng) for _ in range(n)]
+    reqs, impl = [], []
+    for ci, case in enumerate(cases):
+        pv, probes, overdue, faults, errors, ok = run_multi_real(case)
+        oracle_multi(ctx, case, pv, probes, overdue, faults, errors, ok)
+        if ci >= model_for:
+            # the oracle looks at every run; the model is asked about the first ones only
+            # (the single-schedule behaviour is what `run` ties; requests are large)
+            ctx.count(label + "-oracle-only", (min(len(case["scheds"]), 10),), n=len(case["scheds"]) * len(probes))
+            continue
+        for k, sc in enumerate(case["scheds"]):
+            reqs.append(dict(sc, probes=probes, until=case["until"], n=len(case["scheds"])))
+            impl.append({"r": "ok", "pv": pv[k]})
+    if ctx.model_ok and reqs:
+        ctx.compare_stream(label, reqs, impl, core.Driver("drv_c20").ask(reqs),
+                           sig=lambda c, m: (min(c["n"], 10), len(c["changes"]),
+                                             tuple(sorted(set(origin([v]) if v != PV0 else "pv0"
+                                                              for v in m.get("pv") or [])))))
+    else:
+        for c in reqs:
+            ctx.count(label)
+    ctx.evaluations += sum(len(r["probes"]) - 1 for r in reqs)
+    if cases:
+        ctx.sample({"stream": label, "schedules": len(cases[0]["scheds"]), "timers": cases[0]["timers"][:3],
+                    "writes": sum(len(sc["changes"]) for sc in cases[0]["scheds"]),
+                    "probes": len(multi_probes(cases[0]))})
+
+
 # ---------------------------------------------------------------- corpus, shards, entry points
 
 def run_corpus(ctx):
@@ -1363,6 +1599,8 @@ def replay_case(ctx, w, label):
         run_evalday(ctx, None, 0, 0, label=label, groups=[{k: case[k] for k in ("cfg", "days", "mode", "seed", "mods")}])
     elif stream == "run":
         run_runs(ctx, None, 0, label=label, cases=[case])
+    elif stream == "multi":
+        run_multi(ctx, None, 0, label=label, cases=[case])
     else:
         raise core.Infra("unknown corpus stream %r" % stream)
 
@@ -1377,6 +1615,8 @@ def shard_eval(ctx, spec):
         run_evalbad(ctx, rng, n)
     elif kind == "runbad":
         run_runs(ctx, rng, n, label="runbad", bad=True)
+    elif kind == "multi":
+        run_multi(ctx, rng, n)
     else:
         run_runs(ctx, rng, n)
 
@@ -1390,17 +1630,19 @@ def run(ctx):
         run_now(ctx, rng)
         run_years(ctx, [(ctx.seed * 37 + 100) % 255], "year")
         run_years(ctx, list(range(255)), "year-monthlen", focus=True)
-        run_evalday(ctx, rng, 90, 2)
+        run_evalday(ctx, rng, 60, 2)
         run_evalbad(ctx, rng, 120)
         run_runs(ctx, rng, 60)
         run_runs(ctx, rng, 40, label="runbad", bad=True)
+        run_multi(ctx, ctx.sub_rng("c20-multi"), 160)
     else:
         run_cal(ctx, list(range(255)))
         run_now(ctx, rng)
         years = list(range(255))
         core.run_shards(ctx, "harness.c20", "shard_years", [years[i::32] for i in range(32)])
         specs = [("evalday", i, 150) for i in range(32)] + [("evalbad", i, 400) for i in range(8)] + \
-                [("run", i, 200) for i in range(32)] + [("runbad", i, 300) for i in range(8)]
+                [("run", i, 200) for i in range(32)] + [("runbad", i, 300) for i in range(8)] + \
+                [("multi", i, 120) for i in range(32)]
         core.run_shards(ctx, "harness.c20", "shard_eval", specs)
         ctx.exhaustive = True
         ctx.extra["exhaustive_years"] = "1900..2154 x every pattern class"
@@ -1413,6 +1655,7 @@ def search(ctx):
     run_years(ctx, [rng.randrange(255) for _ in range(6)] + [0, 100, 200], "search-year")
     run_evalday(ctx, rng, 300, 3, label="search-evalday")
     run_runs(ctx, rng, 200, label="search-run")
+    run_multi(ctx, rng, 150, label="search-multi")
 
 
 def replay(ctx, payload):
